@@ -17,7 +17,7 @@ From SAV.sql Require Import Lambda LambdaBase LambdaProofs LambdaMain LambdaExtr
      - closure cells keep their kind (literal / list / column / table / function) per code object  [Kf]
      - no None where None-ness changes the SQL (comparison operand, LIMIT); helper functions that are called
        without arguments have no closure of their own; function cells are not also used as values     [safe_env]
-     - no Python-level truth test of a cell, no list index in the body                                 [safe_body]
+     - no Python-level truth test of a cell in the body; indexed list items exist and are not None    [safe_body, safe_env]
    and the direct construction itself succeeds, then EVERY construction in the history yields exactly the
    statement (criteria, bound values, FROM, LIMIT) the direct construction yields, or the documented refusal
    (InvalidRequestError).  In particular a cached skeleton is never combined with stale values. *)
@@ -44,7 +44,7 @@ Print Assumptions c17_function_change_changes_key.
 
 (* literal closure values become fresh bound parameters: filling a skeleton uses the CURRENT closure *)
 Theorem c17_bound_values_are_current : forall F a e us its,
-  forallb (safe_use e) us = true -> forallb not_index us = true -> direct_uses F e us = Ok its ->
+  forallb (safe_use e) us = true -> direct_uses F e us = Ok its ->
   exists p, build_uses F a e us = Ok p /\ fill e p = its.
 Proof. exact build_fill_uses. Qed.
 Print Assumptions c17_bound_values_are_current.
@@ -60,7 +60,8 @@ Print Assumptions c17_skeleton_determined_by_key.
 
 (* a cell that is only tested for truth is refused (the documented InvalidRequestError), never cached *)
 Theorem c17_truth_test_unshared_rejected : forall us e t c i k1 k2,
-  In (UIf t c i k1 k2) us -> has_param us i = false -> i < length e -> is_scalar (cell e i) = true ->
+  In (UIf t c i k1 k2) us -> has_param us i = false -> i < length e ->
+  (match cell e i with VNone | VInt _ => true | _ => false end) = true ->
   forall a, analyze us e <> Ok a.
 Proof. exact truth_test_unshared_rejected. Qed.
 Print Assumptions c17_truth_test_unshared_rejected.
@@ -95,11 +96,18 @@ Theorem c17_shared_truth_test_stale_refuted :
 Proof. exact shared_truth_test_stale_refuted. Qed.
 Print Assumptions c17_shared_truth_test_stale_refuted.
 
-Theorem c17_list_index_typeerror_refuted :
-  run F0 U_index empty_state [[(1%N, [VList [VInt 1; VInt 2]])]] = [TypeErr] /\
-  direct_chain F0 U_index [(1%N, [VList [VInt 1; VInt 2]])] = Ok [ICrit (CCmp 0 1 Gt (VInt 1))].
-Proof. exact list_index_typeerror_refuted. Qed.
-Print Assumptions c17_list_index_typeerror_refuted.
+(* list index: REPAIRED in /repo 3d569da (was c17_list_index_typeerror_refuted).  UIndex is now inside the guard of the
+   main theorem; the two situations as positive examples *)
+Example c17_list_index_alone_rejected :
+  run F0 U_index empty_state [[(1%N, [VList [VInt 1; VInt 2]])]] = [Rejected].
+Proof. exact list_index_alone_rejected. Qed.
+Example c17_list_index_with_in_fresh :
+  run F0 U_index_in empty_state [[(1%N, [VList [VInt 1; VInt 2]])]; [(1%N, [VList [VInt 0; VInt 5; VInt 3]])]] =
+    [Ok [ICrit (CIn 0 2 [VInt 1; VInt 2]); ICrit (CCmp 0 1 Gt (VInt 2))];
+     Ok [ICrit (CIn 0 2 [VInt 0; VInt 5; VInt 3]); ICrit (CCmp 0 1 Gt (VInt 5))]] /\
+  map (direct_chain F0 U_index_in) [[(1%N, [VList [VInt 1; VInt 2]])]; [(1%N, [VList [VInt 0; VInt 5; VInt 3]])]] =
+    run F0 U_index_in empty_state [[(1%N, [VList [VInt 1; VInt 2]])]; [(1%N, [VList [VInt 0; VInt 5; VInt 3]])]].
+Proof. exact list_index_with_in_fresh. Qed.
 
 (* ---------------- non-vacuity: a history of four chains over three lambdas inside the guard ---------------- *)
 Example c17_ex_guard : forall ch, In ch h_ex -> chain_good U_ex K_ex ch /\ exists its, direct_chain F0 U_ex ch = Ok its.
